@@ -152,7 +152,8 @@ func C07(c *Ctx) {
 				if rm.RecKeyMsg[1] == "@cursor+1" {
 					ok = isCursorPlus1(c, rm, ka[1])
 				} else {
-					ok = isMsgField(ka[1], rm.RecKeyMsg[1])
+					// (the height may have been carried along in a record worked out beforehand)
+					ok = isMsgField(ka[1], rm.RecKeyMsg[1]) || isMsgFieldAll(w.Expand(ka[1], 4), rm.RecKeyMsg[1])
 				}
 			}
 			r.Require(ok, "A7.record-key", rm.M+"|write", pos(c, in.Eff.Site), "the record is stored under key ("+strings.Join(rm.RecKeyMsg, ", ")+") of the message", "key "+in.E.String())
